@@ -581,6 +581,46 @@ def _always_raises(stmts) -> bool:
     return any(isinstance(x, ast.Raise) for x in stmts)
 
 
+def check_all_bars(project: Project, rep):
+    """GL-ALLBARS: the sampled landscape is a pointwise k-th maximum over ALL bars, so the loop that visits the (snapped) bars
+    of the diagram must visit every one: a `break` or `return` inside it drops the bars that come later in the diagram (a bar
+    that contributes nothing is skipped with `continue`).  The per-bar loop is the `for` whose iterable derives from the
+    diagram (`self.dgms`, the result of the snapping helper); loops over grid nodes / depths are not concerned."""
+    from .common import expand_locals
+    fi = project.functions.get(AP + ".compute_landscape")
+    if fi is None:
+        rep.unmodelled("GL-ALLBARS", None, None, "compute_landscape of the grid class not found")
+        return
+    f = fn_view(project, fi)
+    found = 0
+    for lp in [n for n in ast.walk(f) if isinstance(n, ast.For)]:
+        src = ast.unparse(expand_locals(f, lp.iter))
+        if not ("dgms" in src or "ndsnap_regular" in src or "bd_pairs" in src):
+            continue
+        found += 1
+        leaves = [x for st in lp.body for x in ast.walk(st) if isinstance(x, (ast.Break, ast.Return))
+                  and not _inside_inner_loop(lp, x)]
+        if leaves:
+            rep.refuted("GL-ALLBARS", fi, leaves[0], f"the loop over the bars of the diagram (`for {ast.unparse(lp.target)} in "
+                                                     f"{ast.unparse(lp.iter)[:50]}`) is left by `{ast.unparse(leaves[0])}`: the bars that come "
+                                                     f"after that point in the diagram never reach the landscape",
+                        construct=f"{fi.qualname}: early exit from the per-bar loop")
+        else:
+            rep.discharged("GL-ALLBARS", fi, lp, "the per-bar loop visits every bar (no break / return inside it)")
+    if not found:
+        rep.unmodelled("GL-ALLBARS", fi, fi.node, "no loop over the bars of the diagram was recognised (a vectorised construction?)")
+
+
+def _inside_inner_loop(outer, node) -> bool:
+    """a break belongs to the innermost loop around it"""
+    if not isinstance(node, ast.Break):
+        return False
+    for inner in [n for st in outer.body for n in ast.walk(st) if isinstance(n, (ast.For, ast.While))]:
+        if any(x is node for st in inner.body + inner.orelse for x in ast.walk(st)):
+            return True
+    return False
+
+
 def run(project: Project, rep, tier: str):
     rep.explain(
         "C08 — narrow claim. The half-step error bound, exactness on-grid and interpolation exactness quantify over runtime "
@@ -624,5 +664,6 @@ def run(project: Project, rep, tier: str):
     if not bad:
         rep.discharged("GL-DEFAULT", None, None, f"{n_keys} parameters/attributes of the landscape modules use None as the "
                                                  f"'not given' marker; none of them is also truth-tested")
-    for rn, n in (("GL-FWD", 3), ("GL-GRID", 7), ("GL-SNAP", 3), ("GL-INDEX", 2), ("GL-DV", 2), ("GL-INF", 3), ("GL-DEFAULT", 1), ("GL-RAMP", 1), ("GL-VEC", 8)):
+    check_all_bars(project, rep)
+    for rn, n in (("GL-FWD", 3), ("GL-GRID", 7), ("GL-SNAP", 3), ("GL-INDEX", 2), ("GL-DV", 2), ("GL-INF", 3), ("GL-DEFAULT", 1), ("GL-RAMP", 1), ("GL-VEC", 8), ("GL-ALLBARS", 1)):
         rep.floor(rn, n)
